@@ -36,11 +36,9 @@ def run(tier, seed, only=None):
     n = 0
     dialects = DIALECTS[1:] if tier == 'quick' else DIALECTS
     for pname, dialect in dialects:
-        db = c01.get_db(pname)
-        S = symdb.build(db, R=R, strlen=3)
-        for prog in progs:
-            n += 1
-            for ob in c01.check_program(db, S, prog, dialect, pname, 10000 if tier == 'quick' else 30000, validate=(pname == 'sqlite')):
+        n += len(progs)
+        for prog, obs in c01.sharded(progs, (pname, dialect, R, 10000 if tier == 'quick' else 30000, 'C02', pname == 'sqlite', ())):
+            for ob in obs:
                 rep.add(ob)
                 if ob.verdict == CEX: rep.sample({'program': prog.src, 'dialect': dialect, 'counterexample': ob.cex, 'key': ob.key}, limit=6)
     rep.programs = n
